@@ -375,7 +375,7 @@ theorem t_wcAt {a : Arrays} {i : Nat} {o : Option Nat} (h : a.2.1[i]? = some o) 
     (tripleOf a).wcAt i = wcMap o := by
   simp [tripleOf, Ssm.Triple.wcAt, List.getD_eq_getElem?_getD, h]
 
-theorem eqMap_some (m : Nat) : (eqMap (some m)).toNat = m + 1 := by simp [eqMap]; omega
+theorem eqMap_some (m : Nat) : (eqMap (some m)).toNat = m + 1 := by simp [eqMap]
 theorem eqMap_none : (eqMap none).toNat = 0 := by simp [eqMap]
 
 /-- what exactness says about a position: its representative -/
@@ -413,7 +413,7 @@ theorem contract_of_exact {c : Cons} {P : Nat} {a : Arrays} (wf : c.WF Generated
   have hn := G.n_pos
   have hN : (tripleOf a).N = a.1.length := by rw [t_N, G.len_st]
   have klast : a.1.length - 1 < a.1.length := by omega
-  refine ⟨by rw [hN]; exact hn, by simp [tripleOf, hN], by simp [tripleOf, hN, G.len_wc], ?_, ?_⟩
+  refine ⟨by rw [hN]; exact hn, by rw [hN]; simp [tripleOf], by rw [hN]; simp [tripleOf, G.len_wc], ?_, ?_⟩
   · rw [hN]
     obtain ⟨_, _, ch, hch, hcode, _⟩ := G.key _ klast G.last
     rw [t_stAt hch]
@@ -429,13 +429,14 @@ theorem contract_of_exact {c : Cons} {P : Nat} {a : Arrays} (wf : c.WF Generated
       have e1 : m' = m := by
         have := IsMin.unique hmin' (isMin_shift hp hrm false (by simpa using hmin))
         simpa using this
-      subst e1
+      rw [e1] at hem'
       have e2 : wm = w := IsMin.unique hwmmin (isMin_shift hp hrm true (by simpa using hwmin))
       have e3 : chm = ch := by
         apply code_eq_of_bits hl hcodem hcode
         intro b
         rw [hbitsm, hbits, Common.shift hp hrm b]; simp [flipB]
-      subst e2 e3
+      rw [e2] at hwm
+      rw [e3] at hchm
       refine ⟨⟨?_, ?_, ?_⟩, ?_, ?_⟩
       · rw [t_stAt hch, t_eqAt hem, eqMap_some]
         simp only [stMap]
@@ -465,12 +466,12 @@ theorem contract_of_exact {c : Cons} {P : Nat} {a : Arrays} (wf : c.WF Generated
           have f1 : w' = w := by
             have := IsMin.unique hminw (isMin_shift hp hrw false (o := some w) ⟨hrw, hwP, hwle⟩)
             simpa using this
-          subst f1
+          rw [f1] at hew'
           have f2 : ww = some m := IsMin.unique hwwmin (isMin_shift hp hrw true (by simpa using hmin))
-          subst f2
+          rw [f2] at hww
           have hwm : w ≠ m := by
             intro e
-            subst e
+            rw [e] at hrw
             have := hrw.trans (hrm.symm hp.eqSymm hp.wcSymm)
             simp at this
             exact G.noself i hk this
@@ -542,5 +543,48 @@ theorem arrFacts_of_exact {c : Cons} {P : Nat} {a : Arrays} (wf : c.WF Generated
       exact pil_isCode hcode
     · obtain ⟨_, _, h3⟩ := G.blank i hi hk
       rw [h3] at hch; cases hch
+
+/-! ## the start sequence of `main` -/
+
+theorem choices_blank : Ssm.choices ' ' = [' '] := by decide
+
+theorem choices_ne_nil : ∀ p ∈ Generated.dnaTable.group, Ssm.choices p.1 ≠ [] := by decide
+
+theorem sAt_startOf (t : Ssm.Triple) (pick : Nat → Nat) {i : Nat} (hi : i < t.N) :
+    Ssm.sAt (startOf t pick) i =
+      (Ssm.choices (t.stAt i)).getD (pick i % (Ssm.choices (t.stAt i)).length) ' ' := by
+  unfold Ssm.sAt startOf
+  rw [List.getD_eq_getElem?_getD, List.getElem?_map, List.getElem?_range hi]
+  rfl
+
+/-- the random start sequence drawn from the template's choice sets is admissible for `constrain` -/
+theorem startOf_ok {t : Ssm.Triple} (c : Ssm.Contract t) (pick : Nat → Nat) : Ssm.StartOK t (startOf t pick) := by
+  obtain ⟨_, _, _, _, hall⟩ := c
+  refine ⟨by simp [startOf], fun i hi => ⟨?_, ?_⟩⟩
+  · intro hb
+    rw [sAt_startOf t pick hi, hb, choices_blank]
+    have : pick i % [' '].length = 0 := Nat.mod_one _
+    rw [this]; rfl
+  · intro hrep
+    obtain ⟨⟨hb1, hb2, _⟩, _, _⟩ := hall i hi
+    have heq : t.eqAt i ≠ 0 := by
+      unfold Ssm.isClassRep at hrep
+      simp only [Bool.and_eq_true, beq_iff_eq] at hrep
+      omega
+    have hst : t.stAt i ≠ ' ' := fun e => heq (hb1.1 e)
+    have hcode := hb2 hst
+    rw [sAt_startOf t pick hi]
+    apply Ssm.choices_memCode hcode
+    obtain ⟨g, hg⟩ := Ssm.isCode_unpack hcode
+    have hne := choices_ne_nil _ hg
+    have hlen : 0 < (Ssm.choices (t.stAt i)).length := List.length_pos_iff.2 hne
+    have hlt := Nat.mod_lt (pick i) hlen
+    rw [List.getD_eq_getElem?_getD, List.getElem?_eq_getElem hlt]
+    exact List.getElem_mem hlt
+
+/-- the C program's own acceptance test passes on the constrained start sequence -/
+theorem consistent_of_contract {t : Ssm.Triple} (c : Ssm.Contract t) (pick : Nat → Nat) :
+    Ssm.testConsistency t (Ssm.constrain t (startOf t pick)) = true :=
+  Ssm.testConsistency_of_good c (Ssm.constrain_good' c.toF (startOf_ok c pick))
 
 end Pepper.ConstraintGen
